@@ -4,11 +4,23 @@
    Hash bytes are interned by the harness as tokens; the model's symbolic digests must be related to the
    tokens by one injective function per case (same digest <-> same token).
    code 1: model answer (count / elements / digest-token relation / RemoveId result) differs from the observed;
-   code 2: the incremental index's observed answers differ from the fresh index's (spec_C08). *)
+   code 2: the incremental index's observed answers differ from the fresh index's (spec_C08).
+
+   Second kind of case (CDm): the DiffManager layer (Model/HeadIndex.v).  A case is the initial head storage of a
+   real space and a list of steps; a step is the list of head-storage events one real operation produced
+   (UpdateEntry results in delivery order, deletion-state additions, restart) and what was observed after it:
+   Hash() and the elements of the live DiffManager's ldiff, the hash read back from StateStorage, and — at a
+   restart point — Hash()/elements of a SECOND DiffManager that ran FillDiff on a fresh ldiff over the same storage
+   and the StateStorage hash after that.
+   code 1: the model's live / restarted contents, the deletion-state membership seen by UpdateHeads, or the
+           digest-token relation differ from the observed;
+   code 2: live != restarted != stored at a restart point of a history satisfying [hist_ok] (since the last
+           restart), or StateStorage hash != live Hash() at any step, or — for a case driven through the
+           repository's own writers ([real] = true) — the history violates [hist_ok] or the readable [hist_wf]. *)
 From Coq Require Import List NArith ZArith Bool Arith.
 From Coq Require Export Uint63.
 Import ListNotations.
-From AnySync Require Export Model.Ldiff.
+From AnySync Require Export Model.Ldiff Model.HeadIndex.
 Open Scope N_scope.
 
 Record query := mkQ { q_from : N; q_to : N; q_we : bool }.
@@ -18,7 +30,13 @@ Record obs := mkObs { o_tok : N; o_elems : list (N * N); o_count : N }.
    and of the fresh index (position by position) *)
 Record stepobs := mkStep { s_op : op; s_ok : bool; s_q : list query; s_inc : list obs; s_fresh : list obs }.
 
-Inductive ncase := CHist (df th : N) (steps : list stepobs).
+(* DiffManager layer *)
+Record dmobs := mkDmObs { d_tok : N; d_stored : N; d_elems : list (N * N) }.   (* elements (id, head) sorted by id *)
+Record dmstep := mkDmStep { ds_events : list event; ds_exists : list bool; ds_live : dmobs; ds_restart : option dmobs }.
+
+Inductive ncase :=
+| CHist (df th : N) (steps : list stepobs)
+| CDm (real : bool) (df th : N) (htab : list (N * N)) (hdtab : list (list N * N)) (s0 : store) (steps : list dmstep).
 
 Fixpoint pairs_eqb (x y : list (N * N)) : bool :=
   match x, y with
@@ -39,8 +57,41 @@ Fixpoint obs_list_eqb (x y : list obs) : bool :=
   end.
 
 (* spec_C08 over observed answers: incrementally maintained == freshly filled, at every step *)
+(* ---- DiffManager layer: spec over observed values; the premise [hist_ok] is computed on the events only *)
+(* (still ok since the last restart, never violated) after the events of one step; "never violated" also asks for
+   the readable condition [event_wf] (W1..W4), which the repository's own writers are claimed to guarantee *)
+Fixpoint events_ok (i : istate) (ok all : bool) (evs : list event) : istate * bool * bool :=
+  match evs with
+  | [] => (i, ok, all)
+  | ev :: r =>
+      let e := event_ok i ev in
+      events_ok (istep i ev) (match ev with EvRestart _ => true | _ => ok && e end) (all && e && event_wf i ev) r
+  end.
+
+Fixpoint dm_spec_steps (i : istate) (ok all : bool) (steps : list dmstep) : bool * bool :=
+  match steps with
+  | [] => (true, all)
+  | s :: r =>
+      let '(i', ok', all') := events_ok i ok all (ds_events s) in
+      let l := ds_live s in
+      let here :=
+        (d_tok l =? d_stored l)
+        && match ds_restart s with
+           | None => true
+           | Some rs =>
+               if ok' then spec_C08_restart (d_tok l) (d_tok rs) (d_stored l) (map fst (d_elems l)) (map fst (d_elems rs))
+                           && (d_stored rs =? d_tok l) && pairs_eqb (d_elems l) (d_elems rs)
+               else true
+           end in
+      let '(rest, allf) := dm_spec_steps i' ok' all' r in (here && rest, allf)
+  end.
+
 Definition spec_ok (c : ncase) : bool :=
-  match c with CHist _ _ steps => forallb (fun s => obs_list_eqb (s_inc s) (s_fresh s)) steps end.
+  match c with
+  | CHist _ _ steps => forallb (fun s => obs_list_eqb (s_inc s) (s_fresh s)) steps
+  | CDm real _ _ _ _ s0 steps =>
+      let '(ok, all) := dm_spec_steps (istart s0) true true steps in ok && (negb real || all)
+  end.
 
 (* model: run the history, answer the same queries; collect (digest, token) pairs *)
 Definition answer_ok (df th : N) (ix : index) (qo : query * obs) : bool * (digest * N) :=
@@ -74,10 +125,66 @@ Fixpoint bijective (l : list (digest * N)) : bool :=
   | (d, t) :: r => consistent_with d t r && bijective r
   end.
 
+(* ---- DiffManager layer: the model against the observations *)
+Fixpoint tab_get (id : N) (t : list (N * N)) : N :=
+  match t with [] => 0 | (i, h) :: r => if i =? id then h else tab_get id r end.
+Fixpoint hd_get (l : list N) (t : list (list N * N)) : N :=
+  match t with [] => 0 | (k, h) :: r => if nl_eqb k l then h else hd_get l r end.
+
+Fixpoint pins (p : N * N) (l : list (N * N)) : list (N * N) :=
+  match l with [] => [p] | q :: r => if fst p <=? fst q then p :: l else q :: pins p r end.
+Definition by_id (ix : index) : list (N * N) := fold_right pins [] (pairs (contents ix)).
+
+Section DmRun.
+  Variables (H : N -> N) (HD : list N -> N) (df th : N).
+
+  (* the events of one step: deletion-state membership seen at each delivery must match *)
+  Fixpoint dm_events (w : world) (evs : list event) (ex : list bool) : option world :=
+    match evs with
+    | [] => match ex with [] => Some w | _ => None end
+    | ev :: r =>
+        match ev with
+        | EvUpd u =>
+            match ex with
+            | b :: ex' => if Bool.eqb b (mem (e_id u) (w_ds w)) then dm_events (wstep H HD df th w ev) r ex' else None
+            | [] => None
+            end
+        | _ => dm_events (wstep H HD df th w ev) r ex
+        end
+    end.
+
+  Fixpoint dm_steps (w : world) (steps : list dmstep) (acc : list (digest * N)) : bool * list (digest * N) :=
+    match steps with
+    | [] => (true, acc)
+    | s :: r =>
+        match dm_events w (ds_events s) (ds_exists s) with
+        | None => (false, acc)
+        | Some w' =>
+            let l := ds_live s in
+            let acc1 := (top_hash (w_ix w'), d_tok l) :: (w_hash w', d_stored l) :: acc in
+            if pairs_eqb (by_id (w_ix w')) (d_elems l) then
+              match ds_restart s with
+              | None => dm_steps w' r acc1
+              | Some rs =>
+                  let fi := fill_index H HD df th (w_store w') in
+                  if pairs_eqb (by_id fi) (d_elems rs)
+                  then dm_steps w' r ((top_hash fi, d_tok rs) :: (top_hash fi, d_stored rs) :: acc1)
+                  else (false, acc)
+              end
+            else (false, acc)
+        end
+    end.
+End DmRun.
+
 Definition model_ok (c : ncase) : bool :=
   match c with
   | CHist df th steps =>
       let '(ok, ps) := run_steps df th (empty_index df th) steps [] in ok && bijective ps
+  | CDm _ df th htab hdtab s0 steps =>
+      let H := fun id => tab_get id htab in
+      let HD := fun l => hd_get l hdtab in
+      let '(ok, ps) := dm_steps H HD df th (wstart H HD df th s0) steps [] in
+      store_okb s0 && ok && bijective ps
   end.
 
 (* ---- case files carry primitive 63-bit integers only; decoding is unverified glue ---- *)
@@ -92,7 +199,29 @@ Definition iobs := (int * list (int * int) * int)%type.
 Definition iquery := (int * int * int * int * bool)%type.
 Inductive iop := ISet (es : list (int * int * int * int)) | IRemove (id : int).
 Definition istep := (iop * bool * list iquery * list iobs * list iobs)%type.
-Inductive case := ICHist (df th : int) (steps : list istep).
+(* DiffManager layer: entry = (id, heads, CommonSnapshot != "", IsDerived, d) with d = 0: no "d" key, k+1: status k *)
+Definition ientry := (int * list int * bool * bool * int)%type.
+Inductive ievent := IEvUpd (u : ientry) | IEvDs (id : int) | IEvRestart (sil : list ientry).
+(* observation: (Hash() token, StateStorage hash token, elements (id, head token) sorted by id) *)
+Definition idmobs := (int * int * list (int * int))%type.
+Definition idmstep := (list ievent * list bool * idmobs * option idmobs)%type.
+Inductive case :=
+| ICHist (df th : int) (steps : list istep)
+| ICDm (real : bool) (df th : int) (htab : list (int * int * int)) (hdtab : list (list int * int))
+       (s0 : list ientry) (steps : list idmstep).
+
+Definition conv_entry (e : ientry) : entry :=
+  let '(id, hs, cs, der, d) := e in
+  mkEntry (n_of id) (map n_of hs) cs der (match n_of d with 0 => None | k => Some (k - 1) end).
+Definition conv_event (e : ievent) : event :=
+  match e with
+  | IEvUpd u => EvUpd (conv_entry u)
+  | IEvDs id => EvDs (n_of id)
+  | IEvRestart sil => EvRestart (map conv_entry sil)
+  end.
+Definition conv_dmobs (o : idmobs) : dmobs := let '(t, st, es) := o in mkDmObs (n_of t) (n_of st) (prs es).
+Definition conv_dmstep (s : idmstep) : dmstep :=
+  let '(evs, ex, l, r) := s in mkDmStep (map conv_event evs) ex (conv_dmobs l) (option_map conv_dmobs r).
 
 Definition conv_obs (o : iobs) : obs := let '(t, es, c) := o in mkObs (n_of t) (prs es) (n_of c).
 Definition conv_q (q : iquery) : query := let '(fh, fl, th_, tl, we) := q in mkQ (h64 fh fl) (h64 th_ tl) we.
@@ -101,7 +230,12 @@ Definition conv_step (s : istep) : stepobs :=
   mkStep (match o with ISet es => OSet (map el es) | IRemove id => ORemove (n_of id) end) ok
          (map conv_q qs) (map conv_obs inc) (map conv_obs fr).
 Definition conv (c : case) : ncase :=
-  match c with ICHist df th steps => CHist (n_of df) (n_of th) (map conv_step steps) end.
+  match c with
+  | ICHist df th steps => CHist (n_of df) (n_of th) (map conv_step steps)
+  | ICDm real df th htab hdtab s0 steps =>
+      CDm real (n_of df) (n_of th) (map (fun t => let '(id, hi, lo) := t in (n_of id, h64 hi lo)) htab)
+          (map (fun p => (map n_of (fst p), n_of (snd p))) hdtab) (map conv_entry s0) (map conv_dmstep steps)
+  end.
 
 Fixpoint check_from (i : N) (l : list case) : list (N * N) :=
   match l with
